@@ -612,13 +612,9 @@ fn absorb(run: &mut Run, s: &Snap) {
             run.calm_phase = false;
         }
     }
-    // injected errors consumed: an "accepted" point with code 2 (error) per consumption
-    for (k, code) in s.points.iter() {
-        if k == "accepted" && *code == 2 {
-            if let Some(slot) = run.injected.iter_mut().find(|x| **x > 0) {
-                *slot -= 1;
-            }
-        }
+    // injected errors not yet consumed, per listener (the engine's own injection queue)
+    if s.inject_left.len() == run.injected.len() {
+        run.injected = s.inject_left.clone();
     }
     for f in s.faults.iter() {
         if !run.pending_faults.contains(f) && run.killed[*f] {
